@@ -41,6 +41,10 @@ type StmtMeta struct {
 	Expect    string        `json:"expect"` // ok | reject (pk change, duplicate key, ...) | any
 	Pred      string        `json:"pred"`   // finding predicate this statement falls under ("" clean)
 	Conn      string        `json:"conn,omitempty"`
+	Table     string        `json:"table,omitempty"`    // statement's own table when the scenario has several
+	SnapPre   string        `json:"snap_pre,omitempty"` // explicit transaction: in-transaction SELECT * before / after the statement
+	SnapPost  string        `json:"snap_post,omitempty"`
+	Step      int           `json:"step,omitempty"` // auto_increment_increment in force when the statement runs
 }
 
 type Meta struct {
@@ -359,7 +363,7 @@ func litOf(a atrun.Arg) string {
 type stmtOpt struct {
 	where    whereOpt
 	pkChange bool
-	insMode  string // "" | mixed-pk (explicit and NULL/0 key values in one statement: refused) | dup
+	insMode  string // "" | mixed-pk (explicit and NULL/0 key values in one statement: refused) | dup | gen-batch
 	upMode   string // "" | pk-unique (upsert lists a fresh key, collides on the unique index and changes a column of it)
 }
 
@@ -449,9 +453,10 @@ func genDelete(r *hutil.Rng, t *table, o stmtOpt) (string, StmtMeta) {
 
 func genInsert(r *hutil.Rng, t *table, o stmtOpt) (string, StmtMeta) {
 	m := StmtMeta{Kind: "insert", Expect: "ok"}
-	omit := t.auto && o.insMode == "" && r.Chance(1, 3)
+	batch := o.insMode == "gen-batch" // 2-3 rows whose keys the database generates
+	omit := t.auto && ((o.insMode == "" && r.Chance(1, 3)) || (batch && r.Chance(1, 2)))
 	// the key column is listed but every row says NULL or 0: the database generates the keys
-	genAll := t.auto && !omit && o.insMode == "" && r.Chance(1, 4)
+	genAll := t.auto && !omit && ((o.insMode == "" && r.Chance(1, 4)) || batch)
 	var cols []int
 	for c := range t.cols {
 		if t.isPK(c) {
@@ -471,7 +476,7 @@ func genInsert(r *hutil.Rng, t *table, o stmtOpt) (string, StmtMeta) {
 	}
 	m.Cols = cols
 	nrows := 1
-	if o.insMode == "mixed-pk" || r.Chance(2, 5) {
+	if o.insMode == "mixed-pk" || batch || r.Chance(2, 5) {
 		nrows = 2 + r.Intn(2)
 	}
 	m.NRows = nrows
@@ -589,6 +594,11 @@ func buildScenario(r *hutil.Rng, i int, stream string, prop string) (atrun.Scena
 		t.name = "oth." + t.name
 	}
 	sc := atrun.Scenario{Name: fmt.Sprintf("%s-%s-%d", prop, strings.ReplaceAll(stream, ":", "-"), i), Setup: setup}
+	autoStep := 1
+	if t.auto {
+		autoStep = []int{1, 1, 2, 5}[r.Intn(4)]
+		sc.Config.AutoIncrementIncrement = autoStep
+	}
 	sc.Config.OnlyCareUpdateColumns = &onlyCare
 	meta := Meta{Stream: stream, Table: t.name, Cols: t.cols, PK: t.pk, AutoInc: t.auto, OnlyCare: onlyCare}
 	body := []atrun.Step{{Op: "dump", Tables: []string{t.name}}}
@@ -597,6 +607,11 @@ func buildScenario(r *hutil.Rng, i int, stream string, prop string) (atrun.Scena
 		if !qualified && s > 0 && r.Chance(1, 4) {
 			// the table-meta cache is replaced between two statements (expiry / refresh / another instance)
 			body = append(body, atrun.Step{Op: "meta_refresh"})
+		}
+		if t.auto && s > 0 && r.Chance(1, 4) {
+			// the session's auto_increment_increment changes between two statements
+			autoStep = []int{1, 2, 3, 5}[r.Intn(4)]
+			body = append(body, atrun.Step{Op: "db_autoinc", N: autoStep})
 		}
 		o := stmtOpt{where: whereOpt{depth: 1 + r.Intn(3), keyBias: true}}
 		special := s == nst-1 // the stream's special statement comes last
@@ -698,6 +713,7 @@ func buildScenario(r *hutil.Rng, i int, stream string, prop string) (atrun.Scena
 				sql = strings.Replace(sql, " "+spelled, " `"+spelled+"`", 1) // back-quoted table name
 			}
 		}
+		sm.Step = autoStep
 		sm.DumpPre = fmt.Sprintf("0.%d", lastDump(body))
 		sm.Path = fmt.Sprintf("0.%d", len(body))
 		body = append(body, atrun.Step{Op: "exec", SQL: sql, Args: sm.Args})
